@@ -96,7 +96,7 @@ pub static INFO: PropInfo = PropInfo {
 };
 
 pub fn run(ctx: &Ctx, out: &mut Outcome) {
-    super::run_loop(ctx, out, 8000, 400_000, 12, one_run);
+    super::run_loop(ctx, out, 16_000, 400_000, 12, one_run);
 }
 
 #[derive(Clone, Copy, Debug, PartialEq)]
